@@ -899,7 +899,17 @@ impl<'a> Gen<'a> {
                 let k = self.r.below(3) as i64;
                 out.push(GStmt::Let(w.clone(), GExpr::Num(0)));
                 self.scopes.last_mut().unwrap().push(w.clone());
-                let cond = GExpr::Bin("lt", Box::new(GExpr::Var(w.clone())), Box::new(GExpr::Num(k)));
+                let mut cond = GExpr::Bin("lt", Box::new(GExpr::Var(w.clone())), Box::new(GExpr::Num(k)));
+                if p.p_random > 0 && self.r.chance(1, 5) {
+                    // a draw in the condition that cannot change its truth: one draw per evaluation of the condition
+                    let n = 2 + self.r.below(5) as i64;
+                    let always = GExpr::Bin(
+                        "lt",
+                        Box::new(GExpr::Call("random".into(), vec![GExpr::Num(n)])),
+                        Box::new(GExpr::Num(n)),
+                    );
+                    cond = GExpr::Bin("and", Box::new(cond), Box::new(always));
+                }
                 let mut body = self.block(depth - 1, false);
                 // the update must rebind the same binding: it does, because while opens no scope —
                 // unless the body sits inside a loop frame opened after the counter was bound, which
@@ -999,11 +1009,11 @@ pub fn gen_case(r: &mut Prng, p: &Profile) -> Case {
     // signals
     let n_in = r.below(p.max_inputs) + 1;
     let n_out = r.below(p.max_outputs + 1);
-    let n_bi = if p.max_bidir > 0 && r.chance(1, 4) { r.below(p.max_bidir) + 1 } else { 0 };
+    let n_bi = if p.max_bidir > 0 && r.chance(1, if p.max_bidir >= 2 { 2 } else { 4 }) { r.below(p.max_bidir) + 1 } else { 0 };
     let mut sigs: Vec<SigSpec> = vec![];
     for name in pick_names(r, IN_NAMES, n_in) {
         let bits = *r.pick(p.widths);
-        let default = if r.chance(1, 6) { None } else { Some(if r.chance(1, 2) { 0 } else { r.below(4) as i64 }) };
+        let default = if r.chance(1, 6) { None } else { Some(match r.below(8) { 0..=3 => 0, 4 | 5 => r.below(4) as i64, 6 => -1 - (r.below(3) as i64), _ => r.below(1 << 20) as i64 }) };
         sigs.push(SigSpec { name, bits, dir: Dir::In, default });
     }
     for name in pick_names(r, OUT_NAMES, n_out) {
@@ -1065,7 +1075,7 @@ pub fn gen_case(r: &mut Prng, p: &Profile) -> Case {
 
     // extra signals the header never mentions
     if (r.below(100) as u32) < p.p_omit {
-        sigs.push(SigSpec { name: "EXTRA_IN".into(), bits: 3, dir: Dir::In, default: Some(5) });
+        sigs.push(SigSpec { name: "EXTRA_IN".into(), bits: 3, dir: Dir::In, default: Some(if r.chance(1, 2) { 5 } else { 13 }) });
         if r.chance(1, 2) {
             sigs.push(SigSpec { name: "EXTRA_OUT".into(), bits: 9, dir: Dir::Out, default: None });
         }
@@ -1112,10 +1122,34 @@ pub fn gen_case(r: &mut Prng, p: &Profile) -> Case {
     // deliberately broken bindings
     if (r.below(100) as u32) < p.p_bad_bind {
         tags.push("bad-bind");
-        match r.below(5) {
+        match r.below(8) {
             0 => {
                 let i = r.below(header.len());
                 header[i] = "NOSUCH".into();
+            }
+            5 | 6 => {
+                // a column that merely looks like the `_out` column of a bidirectional (or any) signal
+                let base = sigs
+                    .iter()
+                    .find(|s| s.dir == Dir::Bidir)
+                    .or_else(|| sigs.first())
+                    .map(|s| s.name.clone())
+                    .unwrap_or("P".into());
+                let name = match r.below(3) {
+                    0 => format!("{base}Q_out"),
+                    1 => format!("{base}_out_out"),
+                    _ => format!("{base}_OUT"),
+                };
+                if !header.contains(&name) && !sigs.iter().any(|s| s.name == name) {
+                    let i = r.below(header.len());
+                    header[i] = name;
+                }
+            }
+            7 => {
+                // an expression that reads a declared (virtual) signal: not an output of the device
+                if let Some(d) = declared.first() {
+                    stmts.push(GStmt::Let("rv".into(), GExpr::Bin("add", Box::new(GExpr::Var(d.clone())), Box::new(GExpr::Num(1)))));
+                }
             }
             1 => {
                 if let Some(s) = sigs.iter().find(|s| s.dir == Dir::Out) {
